@@ -282,6 +282,10 @@ pub fn random_domain_name() -> String {
 pub fn random32() -> [u8; 32] {
     let mut random: [u8; 32] = [0; 32];
 
+    #[cfg(discret_verif)]
+    if crate::verif::entropy_fill(&mut random) {
+        return random;
+    }
     OsRng.fill_bytes(&mut random);
     random
 }
@@ -427,6 +431,10 @@ pub fn new_uid() -> Uid {
     let (one, two) = uid.split_at_mut(time.len());
 
     one.copy_from_slice(time);
+    #[cfg(discret_verif)]
+    if crate::verif::entropy_fill(two) {
+        return uid;
+    }
     OsRng.fill_bytes(two);
 
     uid
